@@ -306,6 +306,90 @@ namespace tc {
     }
 
     ////////////////////////////////////////////////////////////////////////////////
+    // CNL wrapper integers (overflow_integer, rounding_integer, elastic_integer, static_integer, single-word wide_integer,
+    // nests of them): cnl::to_chars, to_chars_static, operator<< and to_chars_capacity on the wrapper itself.  The lines are
+    // the `int` / `fix` / `fixb` / `cap` / `capb` lines of a built-in integer with numeric_limits<W>::digits value digits
+    // and the signedness of W, so the model demands exactly the numeral of the value and the capacity formula over the
+    // digits the wrapper declares.
+
+    template<class W>
+    std::string wtn()
+    {
+        using L = std::numeric_limits<W>;
+        return std::string(L::is_signed ? "i" : "u") + std::to_string(int(L::digits) + int(L::is_signed));
+    }
+
+    template<class W, class V>
+    bool in_range_of(V v)
+    {
+        using L = std::numeric_limits<W>;
+        // compare by value in the widest built-in types
+        if constexpr (std::is_signed_v<V> || std::is_same_v<V, I>) {
+            if (v < 0) {
+                if (!L::is_signed) return false;
+                return I(v) >= I(L::lowest());
+            }
+        }
+        return U(v) <= U(L::max());
+    }
+
+    template<class W, class V, int... Bases>
+    void wrap_sweep(std::vector<V> const& values)
+    {
+        constexpr int cap = _impl::to_chars_capacity<W>{}();
+        std::string const name = wtn<W>();
+        printf("%s cap %s => %d\n", table, name.c_str(), cap);
+        for (int base = 2; base <= 36; ++base)
+            printf("%s capb %s %d => %d\n", table, name.c_str(), base, int(_impl::to_chars_capacity<W>{}(base)));
+        int const bits = std::numeric_limits<W>::digits + 1;
+        for (V v : values) {
+            if (!in_range_of<W>(v)) continue;
+            W const x = W(v);
+            for (int base : {10, Bases...}) {
+                int const maxlen = base == 10 ? cap + 2 : chars_needed(bits, base) + 2;
+                for (int len = 0; len <= maxlen; ++len) {
+                    printf("%s int %s %d %d ", table, name.c_str(), base, len);
+                    prv(v);
+                    fputs(" => ", stdout);
+                    call(len, [&](char* f, char* l) { return cnl::to_chars(f, l, x, base); });
+                }
+            }
+            // fixed-capacity variants
+            printf("%s fix %s ", table, name.c_str());
+            prv(v);
+            fputs(" => ", stdout);
+            char* first = prepare(std::max(cap, 0));
+            int rc = sigsetjmp(jb, 1);
+            if (rc == 0) {
+                arm(1500);
+                vh::armed = 1;
+                auto st = cnl::to_chars_static(x);
+                std::string s = std::string(std::string_view(st));
+                std::ostringstream os;
+                {
+                    using cnl::operator<<;
+                    os << x;
+                }
+                std::to_chars_result r = cnl::to_chars(first, first + std::max(cap, 0), x);
+                vh::armed = 0;
+                arm(0);
+                printf("%d:", st.length);
+                enc(st.chars.data(), st.chars.size());
+                putchar('|');
+                enc(s.data(), s.size());
+                putchar('|');
+                std::string o = os.str();
+                enc(o.data(), o.size());
+                putchar('|');
+                dump(r, first, std::max(cap, 0));
+                putchar('\n');
+            } else
+                failed(rc);
+            (..., (printf("%s fixb %s %d ", table, name.c_str(), Bases), prv(v), fputs(" => ", stdout), fixb_run<Bases>(x)));
+        }
+    }
+
+    ////////////////////////////////////////////////////////////////////////////////
     // value sets
 
     // all values of an 8-bit type; a seeded subsample (plus the boundary lattice) of a 16-bit type unless `full`
